@@ -6,6 +6,10 @@ From SK Require Import model.C03_Model proof.C03_Proof.
 From SK Require Import model.C05_Model proof.C05_Proof proof.C05_Order proof.C05_Set.
 Import ListNotations.
 
+Section WithThr.
+Context {TH : Thr}.
+
+
 Lemma label_none_notin {A B} (g : lgraph A B) u : ~ In u (node_ids g) -> label g u = None.
 Proof. unfold label, node_ids. apply assoc_none_notin. Qed.
 
@@ -86,3 +90,5 @@ Proof.
   - exact (same_graphb_ok nattr_eqb Z.eqb nattr_eqb_eq Zeqb_eq _ _ Hh).
   - split; [exact (same_graphb_ok inode_eqb iedge_eqb inode_eqb_eq iedge_eqb_eq _ _ Ht)|]. split; assumption.
 Qed.
+
+End WithThr.
